@@ -14,3 +14,4 @@ def check(ctx: Ctx) -> None:
     # ... for every well-formed argument list, none at all for a variadic parameter included: the session pops every parameter, so it
     # relies on argparse filling in what the client left out (argument_default=SUPPRESS would leave it out of the namespace)
     CT.r_parser_config(ctx, "R16.6")
+    CT.r_total_indexing(ctx, "R16.7")
